@@ -77,6 +77,43 @@ func (e *poolErr) Error() string { return e.m }
 
 var theErr = &poolErr{"wrapped-err"}
 
+type poolChainErr struct {
+	m     string
+	cause error
+}
+
+func (e *poolChainErr) Error() string { return e.m + ": " + e.cause.Error() }
+func (e *poolChainErr) Unwrap() error { return e.cause }
+
+// installPoolHook registers (for the life of the process) an error hook in the style of cockroachdb/errors:
+// it prints a safe prefix, the error text as unsafe, and the cause through the printer it was given.  It yields
+// in the middle, so that under -g N other goroutines print errors while one of them is inside the hook.
+func installPoolHook() {
+	redact.RegisterRedactErrorFn(func(err error, p redact.SafePrinter, verb rune) {
+		p.SafeString("hooked:")
+		runtime.Gosched()
+		time.Sleep(20 * time.Microsecond)
+		if c, ok := err.(*poolChainErr); ok {
+			p.UnsafeString(c.m)
+			p.SafeString(" <- ")
+			p.Print(c.cause)
+			return
+		}
+		p.UnsafeString(err.Error())
+	})
+}
+
+// hookFlag: -hook on a pool command (and VERIF_POOL_HOOK in the environment of the fresh process it asks for the
+// expected values) runs the whole experiment with the error hook registered.
+func hookFlag(on bool) {
+	if on {
+		os.Setenv("VERIF_POOL_HOOK", "1")
+	}
+	if os.Getenv("VERIF_POOL_HOOK") != "" {
+		installPoolHook()
+	}
+}
+
 var bigString = strings.Repeat("0123456789abcdef", 5000) // 80 KB > the 64 KiB pool limit
 
 // a call kind: executed for its side effects on the process (as a prior call) and for its result (as a probe)
@@ -164,6 +201,9 @@ var poolCalls = []poolCall{
 		}
 		return sb.String()
 	}},
+	{"err-chain", func() string {
+		return string(redact.Sprintf("%v|%+v", &poolChainErr{"outer", theErr}, []error{theErr, poolValErr{"v"}}))
+	}},
 	{"markers", func() string { return string(redact.Sprintf("%s %v", "a‹b›\n", []byte("x›"))) }},
 }
 
@@ -235,6 +275,7 @@ func (r *poolRecorder) write(path string) (n int, recycled int) {
 // ---- expected values from a fresh process ----------------------------------------
 
 func poolExpected(args []string) {
+	hookFlag(false)
 	m := map[string]string{}
 	for _, c := range poolCalls {
 		m[c.name] = guardCall(c.fn)
@@ -243,8 +284,16 @@ func poolExpected(args []string) {
 	fmt.Println(string(b))
 }
 
-func freshExpected() map[string]string {
-	out, err := exec.Command(os.Args[0], "pool-expected").Output()
+func freshExpected() map[string]string { return freshExpectedEnv(os.Getenv("VERIF_POOL_HOOK") != "") }
+
+// freshExpectedEnv: the results of every call kind in a fresh process, with or without the error hook registered there.
+func freshExpectedEnv(hook bool) map[string]string {
+	cmd := exec.Command(os.Args[0], "pool-expected")
+	cmd.Env = append(os.Environ(), "VERIF_POOL_HOOK=")
+	if hook {
+		cmd.Env = append(os.Environ(), "VERIF_POOL_HOOK=1")
+	}
+	out, err := cmd.Output()
 	if err != nil {
 		panic("cannot obtain the expected values from a fresh process: " + err.Error())
 	}
@@ -291,10 +340,13 @@ func poolHistory(args []string) {
 	file := fs.String("hist", "", "JSON array of histories (arrays of call-kind names) derived from TLC behaviours")
 	depth := fs.Int("depth", 2, "additionally: every sequence of call kinds up to this length")
 	trace := fs.String("trace", "", "")
+	hook := fs.Bool("hook", false, "run with an error hook registered")
+	prop := fs.String("prop", "C12", "")
 	fs.Parse(args)
+	hookFlag(*hook)
 	expected := freshExpected()
 	runtime.GOMAXPROCS(1)
-	rep := lib.NewReport("C12", "pool-history")
+	rep := lib.NewReport(*prop, "pool-history")
 	rec := &poolRecorder{max: 200000}
 	rec.install()
 	var hists [][]string
@@ -335,6 +387,33 @@ func poolHistory(args []string) {
 			}
 		}
 	}
+	if *hook {
+		// registration is itself an earlier call: a hook registered (or removed) after printers have been used and
+		// pooled applies to the very next call, whichever printer serves it
+		expHook, expNo := expected, freshExpectedEnv(false)
+		toggle := func(on bool, a, b poolCall, exp map[string]string) {
+			guardCall(a.fn)
+			if on {
+				installPoolHook()
+			} else {
+				redact.RegisterRedactErrorFn(nil)
+			}
+			got := guardCall(b.fn)
+			rep.AddEval(1)
+			if got != exp[b.name] {
+				rep.Violate("pool:history:hook-toggle:"+b.name, fmt.Sprintf("%s, then the hook is %s, then %s returns %q; a fresh process in that hook state %q",
+					a.name, map[bool]string{true: "registered", false: "removed"}[on], b.name, digest(got), digest(exp[b.name])),
+					poolCase{"pool-history", []string{a.name}, b.name})
+			}
+		}
+		for _, a := range poolCalls {
+			for _, b := range poolCalls {
+				toggle(false, a, b, expNo)
+				toggle(true, a, b, expHook)
+			}
+		}
+		rep.Nontrivial("hook-toggle")
+	}
 	for i, h := range hists {
 		runHistory(rep, expected, h)
 		rep.Nontrivial(strings.Join(h, ","))
@@ -359,7 +438,9 @@ func poolStress(args []string) {
 	secs := fs.Float64("secs", 2, "")
 	trace := fs.String("trace", "", "")
 	maxev := fs.Int("maxev", 40000, "")
+	hook := fs.Bool("hook", false, "run with an error hook registered (it yields inside)")
 	fs.Parse(args)
+	hookFlag(*hook)
 	expected := freshExpected()
 	rep := lib.NewReport("C12", "pool-stress")
 	rec := &poolRecorder{max: *maxev}
@@ -395,6 +476,7 @@ func poolStress(args []string) {
 	rep.Extra["pool_events"] = n
 	rep.Extra["gets_of_recycled_printers"] = recycled
 	rep.Extra["goroutines"] = *g
+	rep.Extra["error_hook"] = *hook
 	rep.Nontrivial("stress")
 	rep.Nontrivial("stress2")
 	rep.Sample(map[string]interface{}{"goroutines": *g, "seconds": *secs, "call_kinds": len(poolCalls)})
